@@ -3066,7 +3066,9 @@ func (h *ResponseHeader) parseHeaders(buf []byte) (int, error) {
 				if bytes.Equal(s.value, strClose) {
 					h.connectionClose = true
 				} else {
-					h.connectionClose = false
+					// 'close' is a case-insensitive member of a comma-separated
+					// list of connection options (RFC 9110 section 7.6.1).
+					h.connectionClose = hasHeaderValue(s.value, strClose)
 					h.h = appendArgBytes(h.h, s.key, s.value, argsHasValue)
 				}
 				continue
@@ -3256,7 +3258,9 @@ func (h *RequestHeader) parseHeaders(buf []byte, blockEnd int) (int, error) {
 				if bytes.Equal(s.value, strClose) {
 					h.connectionClose = true
 				} else {
-					h.connectionClose = false
+					// 'close' is a case-insensitive member of a comma-separated
+					// list of connection options (RFC 9110 section 7.6.1).
+					h.connectionClose = hasHeaderValue(s.value, strClose)
 					h.h = appendArgBytes(h.h, s.key, s.value, argsHasValue)
 				}
 				continue
